@@ -19,17 +19,19 @@ M32 = 0xffffffff
 LEAN_MODULES = ["NakenVerif.M6502.Fixpoint"]
 P = "NakenVerif.M6502."
 C01_THEOREMS = [P + n for n in (
-    "m6502_encode_sound", "m6502_encode_len", "m6502_walk_exact", "m6502_fixpoint_structured",
-    "m6502_fixpoint_lowpage_counterexample", "Arch.matrix_opcodes_nodup", "Arch.matrix_forms_nodup", "table_matches_arch",
-    "table_names_arch", "table_names_index", "table_len_consistent", "table_search_sound")]
+    "m6502_encode_sound", "m6502_encode_len", "m6502_walk_exact", "m6502_refix_bytes", "m6502_fixpoint_structured",
+    "m6502_fixpoint_lowpage_counterexample", "Arch.matrix_length", "Arch.matrix_opcodes_nodup", "Arch.matrix_forms_nodup",
+    "table_sizes", "table_matches_arch", "table_names_mnem", "table_names_arch", "table_names_index", "table_names_unique",
+    "table_len_consistent", "table_forms_unique", "table_refind", "search_hit")]
 C06_THEOREMS = [P + n for n in (
-    "m6502_encode_rejects_unfit", "m6502_encode_injective_mod_field", "m6502_encode_injective_imm8",
-    "m6502_encode_exact_field", "m6502_branch_range", "table_search_sound")]
+    "m6502_encode_rejects_unfit", "m6502_imm_range", "m6502_addr_range", "m6502_zp_only_range", "m6502_zp_form_only_range",
+    "m6502_branch_range", "m6502_bbr_range", "m6502_encode_injective_mod_field", "m6502_encode_injective_imm8",
+    "m6502_encode_injective_addr", "m6502_encode_injective_branch", "m6502_encode_exact_field", "table_matches_arch")]
 C07_THEOREMS = [P + n for n in (
-    "m6502_decode_encode_decode", "m6502_text_rejected_classes", "table_matches_arch", "table_search_sound")]
+    "m6502_decode_encode_decode", "m6502_text_rejected_classes", "table_rt_rows", "table_matches_arch", "table_names_unique")]
 C08_THEOREMS = [P + n for n in (
-    "m6502_len_bounds", "m6502_decode_local", "m6502_text_fits", "m6502_walk_tiles", "table_len_consistent",
-    "table_names_short")]
+    "m6502_len_bounds", "m6502_decode_local", "m6502_text_fits", "m6502_walk_tiles", "m6502_walk_tiles_disasm",
+    "table_len_consistent", "table_names_short")]
 
 MODELLED = ("parse_instruction_6502 with get_num / get_address for statements with at most one operand group "
             "(#imm, zp/abs by value and by the pass-1 flag byte, ,x ,y, (ind) (ind,x) (ind),y, relative branches incl. "
